@@ -199,6 +199,10 @@ def cmd_check(args):
         if v is None or _signature(v) != sig:
             small = rec['case']
             v, res = first_violation(small, prop)
+        if v is None:
+            print('HARNESS-ERROR: a violation reported by a worker does not reproduce in the '
+                  'main process (seed %s): %s %s' % (rec['seed'], sig, rec['v']['detail'][:300]))
+            return 2
         replay_path = write_replay(prop, rec['seed'], small, v, res.get('digest'),
                                    {'run': rec['run'], 'base_seed': base_seed})
         ok = fresh_replay(replay_path)
